@@ -70,6 +70,22 @@ impl<T> Sender<T> {
     }
 }
 
+#[cfg(gluon_verif)]
+impl<T> Sender<T> {
+    /// Verification hook: the thread whose heap `send` clones values into.
+    pub fn verif_thread(&self) -> &Thread {
+        &self.thread
+    }
+}
+
+#[cfg(gluon_verif)]
+impl<T> Receiver<T> {
+    /// Verification hook: look at the queued values.
+    pub fn verif_with_queue<R>(&self, f: impl FnOnce(&VecDeque<Value>) -> R) -> R {
+        f(&self.queue.lock().unwrap())
+    }
+}
+
 unsafe impl<T> Trace for Receiver<T> {
     impl_trace_fields! { self, gc; queue }
 }
